@@ -55,7 +55,8 @@ class CacheProp(SeqProp):
             k = rng.randrange(nkeys)
             vcount += 1
             if r < 0.32:
-                ops.append(f"set {k} {vcount}")
+                # values are re-used on purpose: storing the identical object again must still count as a use
+                ops.append(f"set {k} {rng.choice([1, 2, vcount]) if rng.random() < 0.6 else vcount}")
             elif r < 0.52:
                 ops.append(f"get {k}")
             elif r < 0.60:
